@@ -52,16 +52,32 @@ def st_any_subset(N, min_size=0):
         st.lists(st.booleans(), min_size=N, max_size=N).map(lambda bs: [i for i, b in enumerate(bs) if b])
 
 
+def _structured_rows(N, t):
+    """sign-only maps (identity table with signs) and signed permutations of the single-qubit X/Z operators (products of H, SWAP and Paulis):
+    the shapes for which an implementation is most likely to have a special path."""
+    perm, hs, signs = t
+    L = np.zeros((2 * N, N), dtype=np.int64)
+    for q in range(N):
+        L[2 * q, perm[q]] = 3 if hs[q] else 1
+        L[2 * q + 1, perm[q]] = 1 if hs[q] else 3
+    return ref.RefClifford(L, 2 * np.array(signs, dtype=np.int64)).rows()
+
+
 def st_clifford_rows(N, max_word=None):
     """rows (strings) of a valid Clifford map on N qubits, independent of the library's sampler."""
+    structured = st.tuples(st.one_of(st.just(list(range(N))), st.permutations(list(range(N)))),
+                           st.one_of(st.just([0] * N), st.lists(st.integers(0, 1), min_size=N, max_size=N)),
+                           st.lists(st.integers(0, 1), min_size=2 * N, max_size=2 * N)).map(lambda t: _structured_rows(N, t))
     if N <= 2:
         size = ref.clifford_group_size(N)
-        return st.integers(0, size - 1).map(lambda i: ref.clifford_from_index(N, i).rows())
-    A = ref.alphabet_size(N)
-    mw = max_word if max_word is not None else 6 * N * N
-    return st.tuples(st.lists(st.integers(0, A - 1), max_size=mw),
-                     st.lists(st.integers(0, 1), min_size=2 * N, max_size=2 * N)).map(
-        lambda t: ref.clifford_from_word(N, t[0], t[1]).rows())
+        generic = st.integers(0, size - 1).map(lambda i: ref.clifford_from_index(N, i).rows())
+    else:
+        A = ref.alphabet_size(N)
+        mw = max_word if max_word is not None else 6 * N * N
+        generic = st.tuples(st.lists(st.integers(0, A - 1), max_size=mw),
+                            st.lists(st.integers(0, 1), min_size=2 * N, max_size=2 * N)).map(
+            lambda t: ref.clifford_from_word(N, t[0], t[1]).rows())
+    return st.integers(0, 7).flatmap(lambda i: structured if i == 0 else generic)
 
 
 def st_state(N):
